@@ -23,7 +23,9 @@ const (
 var probeAddrs = []uint32{0, 8, 16, 24, 32, 40, 48, 56, lastCell}
 
 type leafSpec struct {
-	Kind   string `json:"kind"` // ok | inc | trap | rec | ghp | gexit | hp | hexit
+	Kind   string `json:"kind"`             // ok | inc | trap | rec | ghp | gexit | obs | hp | hexit
+	Ind    bool   `json:"ind,omitempty"`    // ghp/gexit/obs: the guest reaches the host function through call_indirect
+	ViaImp bool   `json:"viaimp,omitempty"` // ghp/gexit/obs: target is A, which calls B's export through its wasm import
 	Target int    `json:"target"`
 	TrapK  int    `json:"trapk,omitempty"`
 	RecK   int    `json:"reck,omitempty"`
@@ -46,27 +48,37 @@ type step struct {
 }
 
 type op struct {
-	Kind  string `json:"op"` // inc store tset tcall trap rec ghp gexit nest start reinst close
-	Slot  int    `json:"slot"`
-	K     int    `json:"k,omitempty"`
-	D     uint32 `json:"d,omitempty"`
-	A     uint64 `json:"a,omitempty"`
-	Code  uint32 `json:"code,omitempty"`
-	How   int    `json:"how,omitempty"`
-	Addr  uint32 `json:"addr,omitempty"`
-	Val   uint64 `json:"val,omitempty"`
-	Via   bool   `json:"via,omitempty"`   // nest: top-level call is A.via_peer
-	Small bool   `json:"small,omitempty"` // reinst: compile+instantiate in one step (code closed with the module)
-	Cfg   bool   `json:"cfgstart,omitempty"`
-	Stack bool   `json:"callwithstack,omitempty"` // every guest call of this op goes through CallWithStack
-	Steps []step `json:"steps,omitempty"`
+	Kind   string `json:"op"` // inc store tset tcall trap rec ghp gexit nest start reinst close
+	Slot   int    `json:"slot"`
+	K      int    `json:"k,omitempty"`
+	D      uint32 `json:"d,omitempty"`
+	A      uint64 `json:"a,omitempty"`
+	Code   uint32 `json:"code,omitempty"`
+	How    int    `json:"how,omitempty"`
+	Addr   uint32 `json:"addr,omitempty"`
+	Val    uint64 `json:"val,omitempty"`
+	Via    bool   `json:"via,omitempty"`    // nest: top-level call is A.via_peer
+	Ind    bool   `json:"ind,omitempty"`    // ghp/gexit/obs: host function reached through call_indirect
+	ViaImp bool   `json:"viaimp,omitempty"` // ghp/gexit/obs on A: A calls B's export through its wasm import
+	Small  bool   `json:"small,omitempty"`  // reinst: compile+instantiate in one step (code closed with the module)
+	Cfg    bool   `json:"cfgstart,omitempty"`
+	Stack  bool   `json:"callwithstack,omitempty"` // every guest call of this op goes through CallWithStack
+	Steps  []step `json:"steps,omitempty"`
 
 	// filled by the model
 	WantClass string      `json:"want"`
 	WantRes   []uint64    `json:"want_res,omitempty"`
 	WantHost  []string    `json:"want_host,omitempty"` // what the host function at each level must observe from its nested call
 	After     [nSlot]snap `json:"-"`
-	Fails     []failRec   `json:"fails,omitempty"` // failures injected by this op (kind, nesting depth)
+	Fails     []failRec   `json:"fails,omitempty"`     // failures injected by this op (kind, nesting depth)
+	WantMods  []modEvt    `json:"want_mods,omitempty"` // which instance every instrumented host function must be handed, in call order
+}
+
+// modEvt: one call of a host function that takes an api.Module parameter.
+type modEvt struct {
+	Slot int    `json:"slot"` // instance whose function performs the call (-1: the module being instantiated)
+	Fn   string `json:"fn"`
+	Form string `json:"form"`
 }
 
 type failRec struct {
@@ -99,9 +111,11 @@ func (o *op) desc() string {
 	case "rec":
 		fmt.Fprintf(&sb, "(frame%d,depth=%d)", o.K, o.D)
 	case "ghp":
-		fmt.Fprintf(&sb, "(%s)", hostPanics[o.K].Name)
+		fmt.Fprintf(&sb, "(%s%s)", hostPanics[o.K].Name, formSuffix(o.Ind, o.ViaImp))
 	case "gexit":
-		fmt.Fprintf(&sb, "(code=%d,how=%d)", o.Code, o.How)
+		fmt.Fprintf(&sb, "(code=%d,how=%d%s)", o.Code, o.How, formSuffix(o.Ind, o.ViaImp))
+	case "obs":
+		fmt.Fprintf(&sb, "(%d%s)", o.K, formSuffix(o.Ind, o.ViaImp))
 	case "nest", "start":
 		if o.Via {
 			sb.WriteString("via_peer")
@@ -120,11 +134,13 @@ func (o *op) desc() string {
 				case "rec":
 					fmt.Fprintf(&sb, ":frame%d,d=%d@%d", l.RecK, l.RecD, l.Target)
 				case "ghp":
-					fmt.Fprintf(&sb, ":%s@%d", hostPanics[l.HK].Name, l.Target)
+					fmt.Fprintf(&sb, ":%s%s@%d", hostPanics[l.HK].Name, formSuffix(l.Ind, l.ViaImp), l.Target)
+				case "obs":
+					fmt.Fprintf(&sb, ":%d%s@%d", l.HK, formSuffix(l.Ind, l.ViaImp), l.Target)
 				case "hp":
 					fmt.Fprintf(&sb, ":%s", hostPanics[l.HK].Name)
 				case "gexit":
-					fmt.Fprintf(&sb, ":%d,how=%d@%d", l.Code, l.How, l.Target)
+					fmt.Fprintf(&sb, ":%d,how=%d%s@%d", l.Code, l.How, formSuffix(l.Ind, l.ViaImp), l.Target)
 				case "hexit":
 					fmt.Fprintf(&sb, ":%d,how=%d", l.Code, l.How)
 				case "inc":
@@ -150,6 +166,17 @@ func (o *op) desc() string {
 	return sb.String()
 }
 
+func formSuffix(ind, viaImp bool) string {
+	s := ""
+	if ind {
+		s += ",call_indirect"
+	}
+	if viaImp {
+		s += ",via-import"
+	}
+	return s
+}
+
 // ---------------------------------------------------------------------------
 // Model
 
@@ -162,9 +189,10 @@ type minst struct {
 	tslot   int
 	peerOK  bool // slot A: the B it was linked with is still open
 	small   bool
+	slot    int
 }
 
-func newMinst() *minst { return &minst{present: true, cells: map[uint32]uint64{}} }
+func newMinst(slot int) *minst { return &minst{present: true, cells: map[uint32]uint64{}, slot: slot} }
 
 func (in *minst) snap() snap {
 	s := snap{Present: in.present, Closed: in.closed, Code: in.code, G0: in.g0, TSlot: in.tslot}
@@ -175,7 +203,36 @@ func (in *minst) snap() snap {
 }
 
 type model struct {
-	inst [nSlot]*minst
+	inst   [nSlot]*minst
+	viaImp bool // the code being simulated was entered through A's wasm import of B
+}
+
+// hostCall records that code of instance in calls an instrumented host function.
+func (m *model) hostCall(o *op, in *minst, fn string, ind bool) {
+	form := "call"
+	if ind {
+		form = "call_indirect"
+	}
+	if m.viaImp {
+		form += "-in-imported-function"
+	} else {
+		form += "-in-own-function"
+	}
+	o.WantMods = append(o.WantMods, modEvt{Slot: in.slot, Fn: fn, Form: form})
+}
+
+// vp simulates one of A's wrappers that call an export of B through the wasm import.
+func (m *model) vp(a *minst, body func(b *minst) *merr) *merr {
+	a.g0++
+	old := m.viaImp
+	m.viaImp = true
+	e := body(m.inst[slotB])
+	m.viaImp = old
+	if e != nil {
+		return e
+	}
+	a.g0 += postVia
+	return nil
 }
 
 type merr struct{ class string }
@@ -218,18 +275,28 @@ func (m *model) doRec(o *op, depth int, in *minst, k int, d uint32, a uint64, ad
 	return recModel(k, d, a, in.small), nil
 }
 
-func (m *model) doGhp(o *op, depth int, in *minst, hk int, addr uint32, val uint64) *merr {
+func (m *model) doObs(o *op, in *minst, tag uint32, ind bool) uint64 {
+	in.g0++
+	m.hostCall(o, in, "observe", ind)
+	return uint64(tag + obsAdd)
+}
+
+func (m *model) doGhp(o *op, depth int, in *minst, hk int, addr uint32, val uint64, ind bool) *merr {
 	in.g0++
 	in.cells[addr] = val
+	m.hostCall(o, in, "host_panic", ind)
 	o.Fails = append(o.Fails, failRec{"guest-calls-host-panic:" + hostPanics[hk].Name, depth + 1})
 	return &merr{hostPanics[hk].Class}
 }
 
 var exitHow = []string{"wasi-proc_exit", "host-close+panic", "host-panic-only"}
 
-func (m *model) doGexit(o *op, depth int, in *minst, code uint32, how int, addr uint32, val uint64) *merr {
+func (m *model) doGexit(o *op, depth int, in *minst, code uint32, how int, addr uint32, val uint64, ind bool) *merr {
 	in.g0++
 	in.cells[addr] = val
+	if how != 0 { // WASI's proc_exit is not instrumented; the closed-ness probes judge it
+		m.hostCall(o, in, "host_exit", ind)
+	}
 	o.Fails = append(o.Fails, failRec{"exit:" + exitHow[how], depth + 1})
 	if how != 2 {
 		m.closeInst(in, code)
@@ -254,7 +321,10 @@ func (m *model) simNest(o *op, in *minst, level int) (uint64, *merr) {
 
 func (m *model) simVia(o *op, a *minst, level int) (uint64, *merr) {
 	a.g0++
+	old := m.viaImp
+	m.viaImp = true
 	r, e := m.simNest(o, m.inst[slotB], level)
+	m.viaImp = old
 	if e != nil {
 		return 0, e
 	}
@@ -266,6 +336,10 @@ func (m *model) simVia(o *op, a *minst, level int) (uint64, *merr) {
 func okClass(v uint64) string { return fmt.Sprintf("ok:%d", v) }
 
 func (m *model) simHop(o *op, caller *minst, level int) (uint64, *merr) {
+	m.hostCall(o, caller, "hop", false)
+	// what the host function calls is entered through api.Function, not through an import
+	defer func(old bool) { m.viaImp = old }(m.viaImp)
+	m.viaImp = false
 	s := &o.Steps[level]
 	var e *merr
 	var res uint64
@@ -297,9 +371,24 @@ func (m *model) simHop(o *op, caller *minst, level int) (uint64, *merr) {
 			res, e = m.doRec(o, level+1, t, l.RecK, l.RecD, l.RecA, l.Addr, l.Val)
 			hasRes = e == nil
 		case "ghp":
-			e = m.doGhp(o, level+1, t, l.HK, l.Addr, l.Val)
+			if l.ViaImp {
+				e = m.vp(t, func(b *minst) *merr { return m.doGhp(o, level+1, b, l.HK, l.Addr, l.Val, l.Ind) })
+			} else {
+				e = m.doGhp(o, level+1, t, l.HK, l.Addr, l.Val, l.Ind)
+			}
 		case "gexit":
-			e = m.doGexit(o, level+1, t, l.Code, l.How, l.Addr, l.Val)
+			if l.ViaImp {
+				e = m.vp(t, func(b *minst) *merr { return m.doGexit(o, level+1, b, l.Code, l.How, l.Addr, l.Val, l.Ind) })
+			} else {
+				e = m.doGexit(o, level+1, t, l.Code, l.How, l.Addr, l.Val, l.Ind)
+			}
+		case "obs":
+			if l.ViaImp {
+				e = m.vp(t, func(b *minst) *merr { res = m.doObs(o, b, uint32(l.HK), l.Ind); return nil })
+			} else {
+				res = m.doObs(o, t, uint32(l.HK), l.Ind)
+			}
+			hasRes = true
 		}
 		if t != nil {
 			e = boundary(t, e)
@@ -354,12 +443,14 @@ func (m *model) apply(o *op) {
 	o.WantRes = nil
 	o.WantHost = nil
 	o.Fails = nil
+	o.WantMods = nil
+	m.viaImp = false
 	switch o.Kind {
 	case "reinst":
 		if in != nil && in.present && !in.closed {
 			m.closeInst(in, 0)
 		}
-		n := newMinst()
+		n := newMinst(o.Slot)
 		n.small = o.Small
 		if o.Slot == slotA {
 			n.peerOK = true
@@ -371,7 +462,7 @@ func (m *model) apply(o *op) {
 		o.WantClass = "ok"
 	case "start":
 		o.WantHost = make([]string, len(o.Steps))
-		n := newMinst() // the module being instantiated; its state is never visible
+		n := newMinst(-1) // the module being instantiated; its state is never visible
 		_, e = m.simNest(o, n, 0)
 		e = boundary(n, e)
 	default:
@@ -410,9 +501,25 @@ func (m *model) apply(o *op) {
 				o.WantRes = []uint64{r}
 			}
 		case "ghp":
-			e = m.doGhp(o, 0, in, o.K, o.Addr, o.Val)
+			if o.ViaImp {
+				e = m.vp(in, func(b *minst) *merr { return m.doGhp(o, 0, b, o.K, o.Addr, o.Val, o.Ind) })
+			} else {
+				e = m.doGhp(o, 0, in, o.K, o.Addr, o.Val, o.Ind)
+			}
 		case "gexit":
-			e = m.doGexit(o, 0, in, o.Code, o.How, o.Addr, o.Val)
+			if o.ViaImp {
+				e = m.vp(in, func(b *minst) *merr { return m.doGexit(o, 0, b, o.Code, o.How, o.Addr, o.Val, o.Ind) })
+			} else {
+				e = m.doGexit(o, 0, in, o.Code, o.How, o.Addr, o.Val, o.Ind)
+			}
+		case "obs":
+			var r uint64
+			if o.ViaImp {
+				e = m.vp(in, func(b *minst) *merr { r = m.doObs(o, b, uint32(o.K), o.Ind); return nil })
+			} else {
+				r = m.doObs(o, in, uint32(o.K), o.Ind)
+			}
+			o.WantRes = []uint64{r}
 		case "nest":
 			o.WantHost = make([]string, len(o.Steps))
 			var r uint64
@@ -508,8 +615,12 @@ func (g *gen) leaf(open []int, start bool) *leafSpec {
 		l.Kind, l.TrapK = "trap", r.Intn(len(trapKinds))
 	case w < 44:
 		l.Kind, l.HK = "hp", r.Intn(len(hostPanics))
-	case w < 56:
+	case w < 54:
 		l.Kind, l.HK = "ghp", r.Intn(len(hostPanics))
+		g.form(l.Target, &l.Ind, &l.ViaImp)
+	case w < 56:
+		l.Kind, l.HK = "obs", r.Intn(1000)
+		g.form(l.Target, &l.Ind, &l.ViaImp)
 	case w < 64:
 		l.Kind, l.RecK, l.RecD, l.RecA = "rec", r.Intn(4), g.recDepth(), r.I64()
 	case w < 72:
@@ -521,6 +632,7 @@ func (g *gen) leaf(open []int, start bool) *leafSpec {
 		}
 	case w < 79:
 		l.Kind, l.Code, l.How = "gexit", g.code(start), r.Intn(3)
+		g.form(l.Target, &l.Ind, &l.ViaImp)
 	case w < 83:
 		l.Kind, l.Code, l.How = "hexit", g.code(start), 1+r.Intn(2)
 	case w < 92:
@@ -560,6 +672,14 @@ func (g *gen) steps(open []int, start bool) []step {
 		}
 	}
 	return st
+}
+
+// form chooses how the guest reaches the host function: directly or through
+// call_indirect, from the instance's own export or (A only) from inside B's
+// export called through A's wasm import.
+func (g *gen) form(target int, ind, viaImp *bool) {
+	*ind = g.r.Bool()
+	*viaImp = target == slotA && g.viaOK() && g.r.Chance(2, 3)
 }
 
 func (g *gen) viaOK() bool {
@@ -617,10 +737,15 @@ func (g *gen) next() *op {
 		} else {
 			o.Kind, o.K = "trap", r.Intn(len(trapKinds))
 		}
-	case w < 58:
+	case w < 57:
 		o.Kind, o.K = "ghp", r.Intn(len(hostPanics))
+		g.form(o.Slot, &o.Ind, &o.ViaImp)
+	case w < 58:
+		o.Kind, o.K = "obs", r.Intn(1000)
+		g.form(o.Slot, &o.Ind, &o.ViaImp)
 	case w < 61:
 		o.Kind, o.Code, o.How = "gexit", g.code(false), r.Intn(3)
+		g.form(o.Slot, &o.Ind, &o.ViaImp)
 	case w < 86:
 		o.Kind = "nest"
 		if o.Slot == slotA && g.viaOK() && r.Bool() {
@@ -635,7 +760,8 @@ func (g *gen) next() *op {
 	case w < 97:
 		o.Kind, o.Code = "close", g.code(false)
 	default:
-		o.Kind = "inc"
+		o.Kind, o.K = "obs", r.Intn(1000)
+		g.form(o.Slot, &o.Ind, &o.ViaImp)
 	}
 	return o
 }
